@@ -349,6 +349,17 @@ VARIANTS = [
     brk('B-fallback-skipped-on-commit', ['C20'], 'R-fallback-every-tick', (S, "            if self.__raftCommitIndex != nextCommitIdx:\n                self.__raftCommitIndex = nextCommitIdx\n                self.__raftLog.setRaftCommitIndex(self.__raftCommitIndex)\n", "            if self.__raftCommitIndex != nextCommitIdx:\n                self.__raftCommitIndex = nextCommitIdx\n                self.__raftLog.setRaftCommitIndex(self.__raftCommitIndex)\n                return\n")),
     brk('B-response-time-on-any-message', ['C20'], 'R-response-time-writes', (S, "        if message['type'] == 'apply_command':\n", "        self.__lastResponseTime[node] = monotonicTime()\n        if message['type'] == 'apply_command':\n")),
     brk('B-hasquorum-all-connected', ['C20'], 'R-hasquorum', (S, "connected_count = len(nodes.intersection(self.__connectedNodes))", "connected_count = len(self.__connectedNodes)")),
+    # rules added after round-2 changes
+    brk('B-clear-stores-without-publish', ['C08', 'C06'], 'R-offset-coherent', (J, "        self.__journal = []\n        self.__setLastRecordOffset(FIRST_RECORD_OFFSET)\n        self.__currentOffset = FIRST_RECORD_OFFSET", "        self.__journal = []\n        self.__currentOffset = FIRST_RECORD_OFFSET")),
+    brk('B-tail-drop-final-publish-missing', ['C08'], 'R-offset-coherent', (J, "        self.__currentOffset = currentOffset\n        self.__setLastRecordOffset(currentOffset)", "        self.__currentOffset = currentOffset")),
+    brk('B-serializer-busy-after-oserror', ['C09', 'C05'], 'R-serializer-idle', (SER, "        except OSError:\n            self.__pid = 0\n            return SERIALIZER_STATE.FAILED, self.__currentID", "        except OSError:\n            return SERIALIZER_STATE.FAILED, self.__currentID")),
+    brk('B-serializer-busy-after-child-failure', ['C09'], 'R-serializer-idle', (SER, "                return SERIALIZER_STATE.SUCCESS, self.__currentID\n            self.__pid = 0\n            return SERIALIZER_STATE.FAILED, self.__currentID", "                return SERIALIZER_STATE.SUCCESS, self.__currentID\n            return SERIALIZER_STATE.FAILED, self.__currentID")),
+    brk('B-version-applied-without-rebuild', ['C17'], 'R-version-pairing', (S, "            callback = self.__conf.onCodeVersionChanged\n            self.__onSetCodeVersion(ver)\n", "            callback = self.__conf.onCodeVersionChanged\n")),
+    brk('B-append-publishes-old-offset', ['C08'], 'R-write-then-publish', (J, "        self.__currentOffset += len(cmdData)\n        self.__setLastRecordOffset(self.__currentOffset)", "        self.__setLastRecordOffset(self.__currentOffset)\n        self.__currentOffset += len(cmdData)")),
+    brk('B-append-advances-by-payload-only', ['C08'], 'R-write-then-publish', (J, "        self.__currentOffset += len(cmdData)\n", "        self.__currentOffset += len(cmdData) - 4\n")),
+    keep('P-checkserializing-hoist-reset', (SER, "                serializeState = SERIALIZER_STATE.SUCCESS if self.__pid == -1 else SERIALIZER_STATE.FAILED\n                self.__pid = 0\n", "                finished = self.__pid\n                self.__pid = 0\n                serializeState = SERIALIZER_STATE.SUCCESS if finished == -1 else SERIALIZER_STATE.FAILED\n")),
+    keep('P-clear-store-then-publish', (J, "        self.__setLastRecordOffset(FIRST_RECORD_OFFSET)\n        self.__currentOffset = FIRST_RECORD_OFFSET", "        self.__currentOffset = FIRST_RECORD_OFFSET\n        self.__setLastRecordOffset(self.__currentOffset)")),
+    keep('P-add-offset-in-local', (J, "        self.__currentOffset += len(cmdData)\n        self.__setLastRecordOffset(self.__currentOffset)", "        end = self.__currentOffset + len(cmdData)\n        self.__currentOffset = end\n        self.__setLastRecordOffset(end)")),
 ]
 
 VARIANTS = [v for v in VARIANTS if not v.get('skip_reason') and not v.get('note')]
